@@ -204,6 +204,9 @@ pub struct WalkEntry {
     follow: Follow,
     /// Cached metadata.
     meta: OnceCell<Result<Metadata, WalkError>>,
+    /// The starting point this entry was found under, spelled as given on
+    /// the command line (when known).
+    starting_point: Option<PathBuf>,
 }
 
 impl WalkEntry {
@@ -213,7 +216,21 @@ impl WalkEntry {
             inner: Entry::Explicit(path.into(), depth),
             follow,
             meta: OnceCell::new(),
+            starting_point: None,
         }
+    }
+
+    /// Record the starting point (as spelled on the command line) that this
+    /// entry was found under.
+    #[must_use]
+    pub fn with_starting_point(mut self, starting_point: &Path) -> Self {
+        self.starting_point = Some(starting_point.to_path_buf());
+        self
+    }
+
+    /// The starting point as given on the command line, if it was recorded.
+    pub fn starting_point(&self) -> Option<&Path> {
+        self.starting_point.as_deref()
     }
 
     /// Convert a [walkdir::DirEntry] to a [WalkEntry].  Errors due to broken symbolic links will be
@@ -234,6 +251,7 @@ impl WalkEntry {
                         inner: Entry::WalkDir(entry),
                         follow,
                         meta: OnceCell::new(),
+                        starting_point: None,
                     }
                 };
                 Ok(ret)
@@ -246,6 +264,7 @@ impl WalkEntry {
                             inner: Entry::Explicit(path.into(), depth),
                             follow: Follow::Never,
                             meta: Ok(meta).into(),
+                            starting_point: None,
                         });
                     }
                 }
